@@ -301,9 +301,25 @@ def registry_hits(rep: Report, prog: Program, cm: ClassModel) -> None:
                        detail if ok else f"when {X}.id is already registered the method continues without checking that self._nodes[{X}.id] is {X}: "
                        f"a different node with the same id is treated as present")
     rep.floor('C16-D2', found, 3)
+    # several incoming labels checked against the name-keyed label table must be checked against each other as well
+    n_lab = 0
+    for cname in CONCRETE:
+        ci = prog.cls(FG, cname)
+        for f in list(ci.methods.values()) + list(ci.setters.values()):
+            selfn = f.self_name()
+            if selfn is None or f.name in CTOR_LIKE:
+                continue
+            for lp in [x for x in own_nodes(f.node) if isinstance(x, ast.For)]:
+                lvl = _loop_level(lp, selfn, '_edge_labels', 'name')
+                if lvl:
+                    n_lab += 1
+                    rep.ob(rule + ' among-incoming', f.fq(), f"for {norm(lp.target)} in {norm(lp.iter)[:60]}: labels compared with the table and with each other", f.loc(lp), lvl == 2,
+                           'a name used for two different labels within the same call is rejected' if lvl == 2 else
+                           'each incoming label is compared only with the labels already registered: two different labels with one name in the same call are both accepted')
+    rep.floor('C16-D2 label loops', n_lab, 1)
 
 
-def _loop_level(lp: ast.For, selfn: str) -> int:
+def _loop_level(lp: ast.For, selfn: str, registry: str = '_nodes', key: str = 'id') -> int:
     """0: the loop does not verify its elements against self._nodes; 1: it raises when the node registered under the element's id
     differs from the element; 2: the compared expression additionally consults a local container fed by this loop (so two
     incoming nodes with the same id are compared with each other as well)."""
@@ -323,7 +339,7 @@ def _loop_level(lp: ast.For, selfn: str) -> int:
         for c in [x for x in ast.walk(st.test) if isinstance(x, ast.Compare) and len(x.ops) == 1 and isinstance(x.ops[0], (ast.Eq, ast.NotEq))]:
             sides = [c.left, c.comparators[0]]
             for a, b in (sides, sides[::-1]):
-                if norm(a) == Y and f"{selfn}._nodes" in cnorm(b) and f"{Y}.id" in norm(b) and has_raise:
+                if norm(a) == Y and f"{selfn}.{registry}" in cnorm(b) and f"{Y}.{key}" in norm(b) and has_raise:
                     best = max(best, 2 if (names_in(b) & local_feed) else 1)
     return best
 
